@@ -99,6 +99,18 @@ def file_leg(a, b):
 PROBES = ['/cells/*/source', '/cells/*/outputs', '/cells/*/attachments', '/metadata', '/cells/*/id', '/cells/*/metadata',
           '/cells/*/outputs/*/metadata', '/cells/*', '/cells/*/outputs/*', '/cells', '/metadata/custom', '/cells/*/metadata/tags']
 
+def reuse_leg(patch_fn, fresh_a, d):
+    """the diff object the differ returned, applied twice to fresh copies of the base, and what it looks like afterwards:
+    a diff is a value -- applying it must not change it, and applying it again must give the same document"""
+    out = {}
+    try:
+        out['first'] = clean(patch_fn(fresh_a(), d))
+        out['second'] = clean(patch_fn(fresh_a(), d))
+        out['diff_after'] = clean(d)
+    except Exception as e:
+        out['err'] = exc_info(e)
+    return out
+
 def differ_code(f):
     import nbdime.diffing.notebooks as N
     if f is N.diff_ignore: return ['DfIgnore']
@@ -185,7 +197,7 @@ def run_task(t):
             pr = {'ok': p}
         except Exception as e:
             pr = exc_info(e)
-        return {'ok': dj, 'patched': pr, 'oracles': orc}
+        return {'ok': dj, 'patched': pr, 'oracles': orc, 'reuse': reuse_leg(nbdime.patch, lambda: copy.deepcopy(t['a']), d)}
     if op == 'nbdiff_patch':
         a, b = as_nb(t['a']), as_nb(t['b'])
         d = nbdime.diff_notebooks(a, b)
@@ -196,7 +208,7 @@ def run_task(t):
             pr = {'ok': p}
         except Exception as e:
             pr = exc_info(e)
-        out = {'ok': dj, 'patched': pr, 'oracles': orc}
+        out = {'ok': dj, 'patched': pr, 'oracles': orc, 'reuse': reuse_leg(nbdime.patch_notebook, lambda: as_nb(t['a']), d)}
         if t.get('files'):
             out['file'] = file_leg(t['a'], t['b'])
         return out
